@@ -4,6 +4,7 @@ import p_alloc
 import p_strops
 import p_format
 import p_codecs
+import p_stream
 
 CHECKS = {}
 CHECKS.update(p_conv.CHECKS)
@@ -12,6 +13,7 @@ CHECKS.update(p_alloc.CHECKS)
 CHECKS.update(p_strops.CHECKS)
 CHECKS.update(p_format.CHECKS)
 CHECKS.update(p_codecs.CHECKS)
+CHECKS.update(p_stream.CHECKS)
 
 # executors to compile in setup (each check also builds what it needs on demand)
 PREBUILD = [
@@ -20,6 +22,7 @@ PREBUILD = [
     dict(name="exec_strops"),
     dict(name="exec_format"),
     dict(name="exec_codecs"),
+    dict(name="exec_stream"),
     dict(name="exec_conv", variant="substitute", defines=["ST_DEFAULT_VALIDATION=ST::substitute_invalid"]),
     dict(name="exec_conv", variant="assume", defines=["ST_DEFAULT_VALIDATION=ST::assume_valid"]),
 ]
